@@ -115,22 +115,31 @@ Sounds(sc) == UNION {{sc[k].p1} \cup (IF Caption(sc[k]) = "" THEN {} ELSE {Capti
                      : k \in {k \in 1..Len(sc) : sc[k].speak}}
 Summary(sc) == [dur |-> Dur(sc), speak |-> DurSpeak(sc), sounds |-> Sounds(sc)]
 
-\* an entry of the in-memory dictionary
-NoEntry == [here |-> FALSE, scene |-> "", sum |-> [dur |-> 0, speak |-> 0, sounds |-> {}], parsed |-> FALSE, named |-> FALSE]
-FromScene(id, sc) == [here |-> TRUE, scene |-> id, sum |-> Summary(sc), parsed |-> TRUE, named |-> TRUE]
-\* a saved file: version and the table in file order, entries [k, sum]; version 2 has no last-speak field
-SortedBy(rank, keys) == SortSeq(SetToSeq(keys), LAMBDA a, b : rank[a] < rank[b])
+\* An entry of the in-memory dictionary.  The dictionary key is the checksum the entry had
+\* when it was put there; `cur` is the file name the entry's own checksum belongs to now
+\* (assigning entry.filename recomputes the checksum, the dictionary key stays - the writer
+\* must go by the entries, never by the keys).
+NoEntry == [here |-> FALSE, cur |-> "", scene |-> "", sum |-> [dur |-> 0, speak |-> 0, sounds |-> {}], parsed |-> FALSE, named |-> FALSE]
+FromScene(k, id, sc) == [here |-> TRUE, cur |-> k, scene |-> id, sum |-> Summary(sc), parsed |-> TRUE, named |-> TRUE]
+Present(img) == {k \in DOMAIN img : img[k].here}
+\* the container format requires distinct checksums
+DistinctCur(img) == \A a, b \in Present(img) : a # b => img[a].cur # img[b].cur
+\* a saved file: version and the table in file order - sorted by the entries' own checksums,
+\* whether the entries came in a dictionary or a list; version 2 has no last-speak field
+SortedBy(rank, img, keys) == SortSeq(SetToSeq(keys), LAMBDA a, b : rank[img[a].cur] < rank[img[b].cur])
 SaveFile(img, rank, ver) ==
-    LET keys == {k \in DOMAIN img : img[k].here} IN
+    LET keys == Present(img)
+        order == SortedBy(rank, img, keys) IN
     [ver |-> ver,
      table |-> [i \in 1..Cardinality(keys) |->
-                   LET k == SortedBy(rank, keys)[i] IN
-                   [k |-> k, scene |-> img[k].scene,
-                    sum |-> IF ver = 3 THEN img[k].sum ELSE [img[k].sum EXCEPT !.speak = 0 - 1]]]]
+                   LET e == img[order[i]] IN
+                   [k |-> e.cur, scene |-> e.scene,
+                    sum |-> IF ver = 3 THEN e.sum ELSE [e.sum EXCEPT !.speak = 0 - 1]]]]
 LoadedEntry(row) ==
-    [here |-> TRUE, scene |-> row.scene,
+    [here |-> TRUE, cur |-> row.k, scene |-> row.scene,
      sum |-> IF row.sum.speak = 0 - 1 THEN [row.sum EXCEPT !.speak = row.sum.dur] ELSE row.sum,
      parsed |-> FALSE, named |-> FALSE]
+\* a loaded dictionary is keyed by the checksums in the file
 LoadFile(file, keys) ==
     [k \in keys |-> IF \E i \in 1..Len(file.table) : file.table[i].k = k
                     THEN LoadedEntry(file.table[CHOOSE i \in 1..Len(file.table) : file.table[i].k = k])
